@@ -191,11 +191,11 @@ class Frame:
             return self._has_array_  # don't do any checks for 1FC9 (they will fail)
 
         elif self.verb != I_ or self.code not in CODES_WITH_ARRAYS:
-            self._has_array_ = False
+            has_array = False
 
         elif self._len != CODES_WITH_ARRAYS[self.code][0]:  # NOTE: can be false -ves
             a, b = divmod(self._len, CODES_WITH_ARRAYS[self.code][0])
-            self._has_array_ = a > 0 and b == 0
+            has_array = a > 0 and b == 0
 
         elif (
             self.code in (Code._22C9, Code._3150)
@@ -203,15 +203,15 @@ class Frame:
             and self.dst is self.src
             and self.payload[:1] != "F"
         ):
-            self._has_array_ = True
+            has_array = True
 
         # elif self.code == Code._000C:  # anachronism: variable array length
         #     return
 
         else:
-            self._has_array_ = False
+            has_array = False
 
-        if self._has_array_:
+        if has_array:  # validate before memoising: a 2nd access must not skip the checks
             len_ = CODES_WITH_ARRAYS[self.code][0]
 
             assert (
@@ -225,6 +225,8 @@ class Frame:
                 self.src.type not in (DEV_TYPE_MAP.DTS, DEV_TYPE_MAP.DT2)
                 or self.dst.id == NON_DEV_ADDR.id  # DEX
             ), f"{self} < array is from a non-controller (02)"
+
+        self._has_array_ = has_array
 
         # .I --- 10:040239 01:223036 --:------ 0009 003 000000        # not array
         # .I --- 01:102458 --:------ 01:102458 0009 006 FC01FF-F901FF
